@@ -22,6 +22,7 @@ CONSTANTS MaxExt,        \* largest extent of a source axis (3 quick, 4 thorough
           SingleSel,     \* 1 / 2: small / large selection of rank-2 and rank-3 shapes that get the full single-term grammar
           MixLvl2,       \* size level (1 small, 2 large) of the representative per-axis term set, rank-2 sources
           MixLvl3,       \*   ... rank-3 sources
+          MixMinExt3,    \* rank-3 sources: tuples with three terms only where every extent is >= this (1 = all shapes)
           EllZero,       \* TRUE: also tuples with as many terms as axes plus a (zero-width) ellipsis (extents <= 3)
           ExtFile,       \* "" or the path of an ndjson file with further scenarios written by the driver (seeded random larger
                          \* shapes / indices, a stored scenario to replay): {"c": "idx", "shape", "flat", "idx"},
@@ -80,7 +81,7 @@ Chain1 == {FullSlice, SliceT(NoneV, NoneV, -1), SliceT(1, NoneV, NoneV), SliceT(
            TupT(<<ArrT(<<0, -1>>), ArrT(<<-1, 0>>)>>), TupT(<<SliceT(NoneV, NoneV, -1), SliceT(NoneV, -1, NoneV)>>),
            TupT(<<Arr2T(<<<<0, -1>>, <<-1, 0>>>>)>>)}
 Chain2 == Chain1 \cup {IntT(0), SliceT(-2, NoneV, NoneV), TupT(<<Ell>>), TupT(<<IntT(-1), IntT(0)>>)}
-ChainShapes == {<<4>>, <<2, 3>>, <<3, 2>>, <<2, 2, 2>>}
+ChainShapes == {<<4>>, <<3, 2>>, <<2, 2, 2>>}
 
 \* scenarios supplied by the driver (read once at start-up); dealt to ExtBuckets initial states
 Ext == IF ExtFile = "" THEN <<>> ELSE ndJsonDeserialize(ExtFile)
@@ -100,6 +101,7 @@ BaseAll ==
     \cup {b \in {B("mixed", sh, f, x, y, 0) : sh \in Shapes(2) \cup Shapes(3), f \in BOOLEAN, x \in 0..3, y \in 0..4} :
              /\ b.x <= Len(b.shape) /\ b.y <= b.x + 1
              /\ (b.x = Len(b.shape) /\ b.y > 0 => EllZero /\ \A j \in 1..Len(b.shape) : b.shape[j] <= 3)
+             /\ (b.x = 3 => \A j \in 1..3 : b.shape[j] >= MixMinExt3)
              /\ (b.flat => b.x <= 1 \/ (b.x = 2 /\ b.y = 0 /\ Len(b.shape) = 2))}
     \cup {B("chain", sh, f1, 0, 0, f2) : sh \in ChainShapes, f1 \in BOOLEAN, f2 \in 0..1}
     \cup {B("a2s", <<1>>, TRUE, L, a, 0) : L \in 1..4, a \in -2..6}
@@ -169,15 +171,15 @@ LenLaw == IsIdx => IF out.ok THEN Len(out.pos) = Size(out.rs) ELSE out.pos = Err
 \* every position addresses an element of the source
 RangeLaw == IsIdx /\ out.ok => \A j \in 1..Len(out.pos) : out.pos[j] >= 0 /\ out.pos[j] < Size(Sc.shape)
 \* flat_src means: the same index on the flattened shape
-FlatLaw == IsIdx /\ Sc.flat =>
+FlatLaw == IsIdx /\ Sc.c # "mixed" /\ Sc.flat =>
              /\ Positions(Sc.idx, <<Size(Sc.shape)>>, FALSE) = out.pos
              /\ ResultShape(Sc.idx, <<Size(Sc.shape)>>, FALSE) = out.rs
 \* a tuple of full slices (with or without an ellipsis), a bare full slice, a bare ellipsis: the identity
 AllFull(idx) == LET ts == Terms(idx) IN \A p \in 1..Len(ts) : ts[p] = FullSlice \/ ts[p] = Ell
 IdentityLaw == IsIdx /\ out.ok /\ AllFull(Sc.idx) =>
                  out.pos = Iota(Size(Sc.shape)) /\ out.rs = EffShape(Sc.shape, Sc.flat)
-\* the operators Positions / ResultShape / Indexed agree
-ApiLaw == IsIdx => /\ Positions(Sc.idx, Sc.shape, Sc.flat) = out.pos
+\* the operators Positions / ResultShape / Indexed agree (like FlatLaw not re-evaluated for the "mixed" class: cost)
+ApiLaw == IsIdx /\ Sc.c # "mixed" => /\ Positions(Sc.idx, Sc.shape, Sc.flat) = out.pos
                    /\ ResultShape(Sc.idx, Sc.shape, Sc.flat) = out.rs
                    /\ out.ok = Valid(Sc.idx, Sc.shape, Sc.flat)
 \* a permutation-free index (basic indexing) never selects an element twice
